@@ -203,4 +203,19 @@ def c18(tier, seed):
     return m.check(tier, seed)
 
 
-CHECKS = {"C18": c18, "C09": c09, "C14": c14, "C01": c01, "C03": c03, "C04": c04, "C05": c05, "C06": c06, "C07": c07, "C13": c13, "C16": c16}
+def c12(tier, seed):
+    import c12 as m
+    return m.check(tier, seed)
+
+
+def c10(tier, seed):
+    import c10 as m
+    return m.check("C10", tier, seed)
+
+
+def c11(tier, seed):
+    import c10 as m
+    return m.check("C11", tier, seed)
+
+
+CHECKS = {"C10": c10, "C11": c11, "C12": c12, "C18": c18, "C09": c09, "C14": c14, "C01": c01, "C03": c03, "C04": c04, "C05": c05, "C06": c06, "C07": c07, "C13": c13, "C16": c16}
